@@ -22,7 +22,13 @@ impl<T: Write> WritePrinter<T> {
     }
 
     fn print_as_is(&mut self, s: &str) -> std::io::Result<usize> {
-        let bytes_written = self.writer.write(s.as_bytes())?;
+        // a string holds one character per byte value (CHR$(200) is one character):
+        // write one byte per character, as GET / PUT and the input statements read them
+        let bytes: Vec<u8> = s
+            .chars()
+            .map(|ch| if (ch as u32) < 256 { ch as u8 } else { b'?' })
+            .collect();
+        let bytes_written = self.writer.write(&bytes)?;
         self.writer.flush()?;
         // columns are counted in characters, not bytes
         self.last_column += s.chars().count();
